@@ -1,19 +1,23 @@
 package harness
 
 import (
+	"context"
 	"encoding/json"
 	"fmt"
+	"sync/atomic"
 	"time"
 
 	"github.com/bool64/cache"
 
 	"verif/ref"
 	"verif/vclock"
+	"verif/vsched"
 )
 
 // C11 — the janitor deletes only entries expired longer than DeleteExpiredAfter (DESIGN §C11).
 
 type c11Cell struct {
+	Real    bool   `json:"real,omitempty"` // the real janitor goroutine runs (real timers, virtual clock)
 	Backend string `json:"backend"`
 	TTL     string `json:"ttl"`
 	DEA     string `json:"dea"` // "24h" | "1m"
@@ -71,7 +75,120 @@ func c11Cells(tier string) []Cell {
 		}
 	}
 
+	// The janitor goroutine itself, started by the constructor exactly as in production: the cycle is not
+	// invoked through the accessor but by the daemon, on whatever object it was started with.
+	for _, b := range backendKinds {
+		for _, ttl := range []string{"5m", "unlimited"} {
+			for hist := 0; hist < 4; hist++ {
+				cells = append(cells, Cell{ID: c11Cell{Real: true, Backend: b, TTL: ttl, DEA: "1m", First: hist}.id()})
+			}
+		}
+	}
+
 	return cells
+}
+
+// c11Real runs one history against the real janitor. Cycles are counted through the EvictionNeeded
+// callback (called once per cycle); wall-clock time is only used to wait for the daemon and never decides
+// the verdict: if the daemon does not complete 3 cycles within the patience window the cell is inconclusive.
+func c11Real(cc c11Cell, env *Env) CellResult {
+	res := CellResult{Exhaustive: true, Outcomes: map[string]int{}, Execs: 1, States: 1}
+
+	vclock.Reset()
+
+	var cycles int64
+
+	cfg := c11Cfg(cc)
+	cfg.DeleteExpiredJobInterval = time.Millisecond
+	cfg.EvictionNeeded = func() bool { atomic.AddInt64(&cycles, 1); return false }
+
+	vsched.RunDaemons = true
+	b := newBackend(cc.Backend, cfg)
+	vsched.RunDaemons = false
+
+	ctx := context.Background()
+	k0, k1, k2 := []byte("never-or-default"), []byte("per-call-ttl"), []byte("expire-all-victim")
+
+	waitCycles := func(n int64) bool {
+		start := atomic.LoadInt64(&cycles)
+		deadline := time.Now().Add(10 * time.Second)
+
+		for atomic.LoadInt64(&cycles) < start+n {
+			if time.Now().After(deadline) {
+				return false
+			}
+
+			time.Sleep(time.Millisecond)
+		}
+
+		return true
+	}
+
+	_ = b.Write(ctx, k0, 0)
+
+	var wantGone [][]byte
+
+	switch cc.First {
+	case 0: // per-call TTL, long expired when the janitor looks
+		_ = b.Write(cache.WithTTL(ctx, 10*time.Second, false), k1, 1)
+		wantGone = [][]byte{k1}
+	case 1: // a cycle sees the entry while it is still recent, later cycles must still remove it
+		_ = b.Write(cache.WithTTL(ctx, 10*time.Second, false), k1, 1)
+		vclock.Advance(20 * time.Second)
+
+		if !waitCycles(3) {
+			res.Exhaustive, res.CapHit = false, "janitor did not run"
+			return res
+		}
+
+		wantGone = [][]byte{k1}
+	case 2: // ExpireAll instead of a per-call TTL
+		_ = b.Write(ctx, k2, 2)
+		b.ExpireAll(ctx)
+		_ = b.Write(ctx, k0, 0) // k0 written again: fresh / never expiring
+		wantGone = [][]byte{k2}
+	case 3: // nothing expires: everything must stay
+	}
+
+	vclock.Advance(cfg.DeleteExpiredAfter + time.Minute)
+
+	if !waitCycles(3) {
+		res.Exhaustive, res.CapHit = false, "janitor did not run 3 cycles within the patience window"
+		return res
+	}
+
+	res.Transitions = int(atomic.LoadInt64(&cycles))
+	sig := fmt.Sprintf("C11 %s ttl=%s real-janitor", cc.Backend, cc.TTL)
+
+	present := func(k []byte) bool {
+		found := false
+		_, _ = b.Walk(func(key []byte, v interface{}, at time.Time) error {
+			if string(key) == string(k) {
+				found = true
+			}
+
+			return nil
+		})
+
+		return found
+	}
+
+	for _, k := range wantGone {
+		if present(k) {
+			res.Violations = append(res.Violations, Violation{Signature: sig + " long-expired-entry-survives",
+				Detail: fmt.Sprintf("history %d: entry %q expired more than DeleteExpiredAfter ago is still there after %d janitor cycles", cc.First, k, atomic.LoadInt64(&cycles))})
+		}
+	}
+
+	// k0 is never-expiring (Unlimited) or still fresh (5m TTL, less than 3 virtual minutes have passed): it must stay
+	if !present(k0) {
+		res.Violations = append(res.Violations, Violation{Signature: sig + " live-entry-removed", Detail: fmt.Sprintf("history %d: a never-expiring / still fresh entry was removed by the janitor", cc.First)})
+	}
+
+	res.Outcomes[fmt.Sprintf("real-janitor history %d ok", cc.First)]++
+	res.Sample = map[string]interface{}{"real_janitor": true, "history": cc.First, "cycles_observed": atomic.LoadInt64(&cycles)}
+
+	return res
 }
 
 func c11Spec(cc c11Cell, depth int) (SeqSpec, []bop) {
@@ -108,6 +225,10 @@ func c11Run(c Cell, env *Env) CellResult {
 	var cc c11Cell
 	_ = json.Unmarshal([]byte(c.ID), &cc)
 
+	if cc.Real {
+		return c11Real(cc, env)
+	}
+
 	depth := 4
 	if env.Thorough() {
 		depth = 6
@@ -143,7 +264,8 @@ func init() {
 			"for TimeToLive in {5m, Unlimited} x DeleteExpiredAfter in {24h, 1m} x 3 backends; Cleanup is the janitor's own invokeCleanup called through a verif-tagged accessor; " +
 			"after every transition Len and a full Walk are compared with the model (removed <=> expiry != never and expiry < now-DeleteExpiredAfter)",
 		Assumptions: []string{
-			"the janitor goroutine is not started; its cycle is an explicit operation calling the same function, at every position the alphabet allows",
+			"BFS cells: the janitor goroutine is not started; its cycle is an explicit operation calling the same function, at every position the alphabet allows",
+			"real-janitor cells: the daemon started by the constructor runs on real timers against the virtual clock; cycles are counted through EvictionNeeded; wall-clock time is only patience (inconclusive, never a violation)",
 			"no eviction limit configured (eviction is C12's subject)",
 			"quick: sequences of 5 operations; thorough: sequences of 7",
 		},
